@@ -50,13 +50,38 @@ type caseRec struct {
 	Obs   string          `json:"obs"`
 }
 
-func safeRun(p Property, in interface{}) (obs Sx) {
+func safeRun1(p Property, in interface{}) (obs Sx) {
 	defer func() {
 		if r := recover(); r != nil {
 			obs = L(SBytes("PANIC"), SBytes(fmt.Sprint(r)), SBytes(firstLines(string(debug.Stack()), 12)))
 		}
 	}()
 	return p.Run(in)
+}
+
+// infraFailure: the scenario could not be set up for a reason that lies in the sandbox, not in the library (a TCP
+// port could not be opened, or not re-opened because another process had taken the ephemeral port meanwhile).
+func infraFailure(o Sx) bool {
+	if o.K != "l" || len(o.L) == 0 || o.L[0].K != "s" {
+		return false
+	}
+	switch string(bytesOf(o.L[0])) {
+	case "listen-failed", "relisten-failed":
+		return true
+	}
+	return false
+}
+
+// safeRun: a case whose set-up failed for an infrastructure reason is run again (a few times, with a pause).
+func safeRun(p Property, in interface{}) (obs Sx) {
+	for try := 0; ; try++ {
+		obs = safeRun1(p, in)
+		if !infraFailure(obs) || try >= 4 {
+			return obs
+		}
+		hist("infrastructure-retry")
+		time.Sleep(time.Duration(200*(try+1)) * time.Millisecond)
+	}
 }
 
 func firstLines(s string, n int) string {
